@@ -5,3 +5,6 @@ mod feature;
 mod generator;
 #[path = "/repo/src/parser/mod.rs"]
 mod parser;
+#[cfg(enum_tools_verif)]
+#[path = "/repo/src/verif_seam.rs"]
+mod verif_seam;
